@@ -213,6 +213,79 @@ for it in range(N // 5):
                 {"n": n, "draw": it, "motion": name}, lambda name=name, coord=coord, move=move: library_motion_contract(name, coord, move))
 
 
+# ---------------------------------------------------------------- backbone dihedrals, centroid
+def backbone_contract(n_res, stack, missing):
+    """dihedral_backbone: phi / psi / omega of every residue equal the textbook dihedral of the four backbone atoms
+    (C(i-1) N CA C / N CA C N(i+1) / CA C N(i+1) CA(i+1)), NaN at the chain ends and where an atom is missing;
+    they do not change under a rigid motion; centroid == mean of the coordinates"""
+    import os
+    import tempfile
+    import shutil
+    import atexit
+    import biotite.structure.info as info
+    from fixtures.make_ccd import main as make_ccd
+    if not getattr(backbone_contract, "ccd", None):
+        d = tempfile.mkdtemp(prefix="verif-ccd-")
+        atexit.register(shutil.rmtree, d, True)
+        backbone_contract.ccd = os.path.join(d, "components.bcif")
+        make_ccd(backbone_contract.ccd)
+        info.set_ccd_path(backbone_contract.ccd)
+    names = ["N", "CA", "C", "O"]
+    rows = [(r + 1, nm) for r in range(n_res) for nm in names if not (r == missing[0] and nm == missing[1])]
+    n = len(rows)
+    a = struc.AtomArrayStack(2, n) if stack else struc.AtomArray(n)
+    a.chain_id[:] = "A"
+    a.res_id[:] = [r for r, _ in rows]
+    a.res_name[:] = [("GLY", "ALA", "SER")[(r - 1) % 3] for r, _ in rows]
+    a.atom_name[:] = [nm for _, nm in rows]
+    a.element[:] = [nm[0] for _, nm in rows]
+    coord = np.cumsum(rng.normal(size=(2 if stack else 1, n, 3)) * 1.5, axis=1).astype(np.float32)
+    a.coord = coord if stack else coord[0]
+    phi, psi, omg = struc.dihedral_backbone(a)
+    got = np.stack([np.asarray(phi, dtype=float), np.asarray(psi, dtype=float), np.asarray(omg, dtype=float)])
+    if not stack:
+        got = got[:, None]
+    if got.shape != (3, coord.shape[0], n_res):
+        return f"angle arrays of shape {got.shape[1:]}, expected {(coord.shape[0], n_res)}"
+    pos = {(r, nm): k for k, (r, nm) in enumerate(rows)}
+    for m in range(coord.shape[0]):
+        for r in range(1, n_res + 1):
+            quads = {0: [(r - 1, "C"), (r, "N"), (r, "CA"), (r, "C")], 1: [(r, "N"), (r, "CA"), (r, "C"), (r + 1, "N")],
+                     2: [(r, "CA"), (r, "C"), (r + 1, "N"), (r + 1, "CA")]}
+            for which, quad in quads.items():
+                g = got[which, m, r - 1]
+                if any(q not in pos for q in quad):
+                    if not np.isnan(g):
+                        return f"{('phi', 'psi', 'omega')[which]} of residue {r} = {g:.4f} although one of its atoms does not exist (NaN expected)"
+                    continue
+                e = textbook(coord[m][[pos[q] for q in quad]].astype(float))[2]
+                if np.isnan(g) or min(abs(g - e), 2 * np.pi - abs(g - e)) > 2e-3:
+                    return f"{('phi', 'psi', 'omega')[which]} of residue {r} (model {m}) = {g:.4f}, textbook dihedral of {quad} = {e:.4f}"
+    Rm, t = rot(rng), rng.uniform(-20, 20, size=3)
+    b = a.copy()
+    b.coord = (a.coord.astype(float) @ Rm.T + t).astype(np.float32)
+    for x, y in zip(struc.dihedral_backbone(b), (phi, psi, omg)):
+        dx = np.abs(np.asarray(x, dtype=float) - np.asarray(y, dtype=float))
+        dx = np.minimum(dx, 2 * np.pi - dx)
+        if not np.array_equal(np.isnan(x), np.isnan(y)) or np.nanmax(dx, initial=0) > 5e-3:
+            return "backbone dihedrals change under a rigid motion"
+    cen = np.asarray(struc.centroid(a), dtype=float)
+    if not np.allclose(cen, coord.mean(axis=1) if stack else coord[0].mean(axis=0), atol=1e-3):
+        return "centroid != mean of the coordinates"
+    return None
+
+
+for it in range(max(4, N // 25)):
+    for n_res in (1, 2, 4):
+        for stack in (False, True):
+            for missing in ((-1, ""), (1, "CA"), (0, "C"), (n_res - 1, "N")):
+                if missing[0] >= n_res:
+                    continue
+                R.check("distance/angle/dihedral == textbook, rigid-motion invariant, index variants agree", "backbone dihedrals / centroid",
+                        {"residues": n_res, "stack": stack, "missing atom": list(missing), "draw": it},
+                        lambda n_res=n_res, stack=stack, missing=missing: backbone_contract(n_res, stack, missing))
+
+
 def periodic_geometry_contract(kind, box):
     """a 4-atom chain is translated and wrapped into the box: the periodic distance / angle / dihedral
     (and their index variants) must equal the textbook values of the unwrapped chain"""
